@@ -17,7 +17,9 @@ F2Ok(e) == /\ e.ev = "op" /\ e.out = "ok"
            /\ \A i \in 1..Len(e.inres) :
                 LET q == <<((i - 1) \div (cs.w + 3)) - 1, ((i - 1) % (cs.w + 3)) - 1>>      \* x outer, y inner, from -1 to w+1
                 IN ClearMargin(q, cs.A, cs.B, 1) => e.inres[i] = InOp(cs.op, q, cs.A, cs.B)
-Ok(e) == IF cs.kind = "f1" THEN F1Ok(e) ELSE F2Ok(e)
+(* e.again: the same two values were then passed to all four operations and to this one once more; the last result is the
+   same set of rings as the first (every one of those calls is an instance of the property) *)
+Ok(e) == (IF cs.kind = "f1" THEN F1Ok(e) ELSE F2Ok(e)) /\ e.again
 Apply(e) == UNCHANGED cs
 Reset(e) == cs' = e
 Keep == UNCHANGED cs
